@@ -39,9 +39,10 @@ const cpuUnit = 600 // Contract!CpuUnit
 
 func keyName(n int) []byte { return []byte("k" + strconv.Itoa(n)) }
 
-// ctr is one registered instance of the contract: its bucket (= its name), the account it pays from,
+// ctr is one registered instance of the contract: its name, the bucket of its keys, the account it pays from,
 // the recipient of its transfers and the name of the second contract it may call.
 type ctr struct {
+	name   string
 	bucket string
 	vault  string
 	rcpt   string
@@ -109,7 +110,7 @@ func (c *ctr) run(ctx contract.KContext) (*contract.Response, error) {
 				return nil, err
 			}
 		case "emit":
-			ctx.AddEvent(&protos.ContractEvent{Contract: c.bucket, Name: s.V, Body: []byte(acc)})
+			ctx.AddEvent(&protos.ContractEvent{Contract: c.name, Name: s.V, Body: []byte(acc)})
 		case "use":
 			switch s.V {
 			case "x":
@@ -131,9 +132,9 @@ func (c *ctr) run(ctx contract.KContext) (*contract.Response, error) {
 }
 
 // register makes the contract (and its callee) known to the node's kernel-contract registry.
-func register(reg contract.KernRegistry, name, vault, rcpt string) {
-	top := &ctr{bucket: name, vault: vault, rcpt: rcpt, sub: name + "s"}
-	sub := &ctr{bucket: name, vault: vault, rcpt: rcpt}
+func register(reg contract.KernRegistry, name, bucket, vault, rcpt string) {
+	top := &ctr{name: name, bucket: bucket, vault: vault, rcpt: rcpt, sub: name + "s"}
+	sub := &ctr{name: name, bucket: bucket, vault: vault, rcpt: rcpt}
 	reg.RegisterKernMethod(name, "run", top.run)
 	reg.RegisterKernMethod(name+"s", "run", sub.run)
 }
